@@ -256,6 +256,11 @@ class Builtins:
         return [Res(st, VBuiltin(f"{m}.{name}"))]
 
     def value_getattr(self, st, v, name):
+        if isinstance(v, VOpq) and v.tag in ("function", "attr:__code__") and name in ("__code__", "co_code", "func_code", "__name__"):
+            if name == "func_code":
+                return self.X.raise_(st, "AttributeError", "func_code")
+            f = z3.Function("attr_" + name, v.t.sort(), core.Opq)
+            return [Res(st, VOpq(f(v.t), "attr:" + name))]
         return [Res(st, VBuiltin("val." + name, v))]
 
     def builtin_getattr(self, st, v, name):
@@ -958,6 +963,16 @@ class Builtins:
                 from . import jsonmodel
 
                 return jsonmodel.isinstance_(v, n)
+            if isinstance(v, VKey):
+                if n == "type.str":
+                    return core.Key.is_KStr(v.t)
+                if n == "type.bool":
+                    return core.Key.is_KBool(v.t)
+                if n == "type.int":
+                    return z3.Or(core.Key.is_KInt(v.t), core.Key.is_KBool(v.t))
+                if n == "numbers.Real":
+                    return z3.Or(core.Key.is_KInt(v.t), core.Key.is_KBool(v.t), core.Key.is_KReal(v.t))
+                return z3.BoolVal(False)
             if n == "numbers.Real":
                 return z3.BoolVal(isinstance(v, (VFl, VInt, VBool)))
             if n == "type.str":
